@@ -22,7 +22,10 @@ RULE = ('every Matrix operation (copy/to_wirevector round trip, + - * scalar* @ 
         'axis reductions); CHAINED operations op2(op1(A..), B) with op1 in {copy, transpose, reversed, '
         'flatten, reshape, getitem block, hstack/vstack/concatenate, put, setitem, bits setter} and op2 in '
         '{+, *, @, **2, dot} are built with all-max values and checked for the documented width and the '
-        'exact value of op2 (so a wrong bits/max_bits on the intermediate shows); the translator regenerates '
+        'exact value of op2 (so a wrong bits/max_bits on the intermediate shows); every CALL FORM of value-taking '
+        'arguments: put index as int / list / tuple, put values as bare int / list / tuple / Matrix row / empty, '
+        '__setitem__ with literal ints, wires and matrices, Matrix(value=None | list of ints) -- with the '
+        'falsy-but-meaningful values (0, all-zero lists, index 0) always included; the translator regenerates '
         'Gen/MatrixRules.v (width rules, constructor, put.get_ix, reshape arithmetic, max_bits arguments) and '
         'Gen/MatrixKeys.v (the whole key normalisation of __getitem__/__setitem__ for all four int/slice '
         'combinations, the single-int key, and getitem\'s block extraction) from the current source; HISTORIES: seeded random call '
@@ -179,6 +182,11 @@ def spec(case, ms, scalar):
         return [[f(x, y) for x, y in zip(ra, rb)] for ra, rb in zip(a, b)]
     if op == 'scal':
         return [[x * scalar for x in row] for row in a]
+    if op == 'ctor_add':
+        vals = g['vals'] if g['vals'] is not None else [[0] * g['c'] for _ in range(g['r'])]
+        if shape(vals) != shape(a):
+            raise SpecError('shape mismatch')
+        return [[x + y for x, y in zip(r1, r2)] for r1, r2 in zip(vals, a)]
     if op in ('matmul', 'imatmul'):
         b = ms[1]
         if len(a[0]) != len(b):
@@ -215,7 +223,7 @@ def spec(case, ms, scalar):
         if g['scalar']:
             if len(ri) != 1 or len(ci) != 1:
                 raise SpecError('scalar into a block')
-            r[ri[0]][ci[0]] = scalar
+            r[ri[0]][ci[0]] = g['lit'] if 'lit' in g else scalar
         else:
             v = ms[1]
             if shape(v) != (len(ri), len(ci)):
@@ -334,6 +342,9 @@ def declared_bits(case):
         if matmul_branch:
             return c1 * ob[0] * (b1 + b2), mb1
         return None, mb1
+    if op == 'ctor_add':
+        g = case['args']
+        return max(capb(g['b'], g['mb']), eb[0]) + 1, g['mb']
     if op in ('add', 'iadd'):
         return max(eb[0], eb[1]) + 1, mb
     if op in ('mul', 'imul', 'multiply'):
@@ -360,6 +371,8 @@ def spec_max_bits(case):
         return max(o[3] for o in ops)
     if op in ('sum', 'min', 'max', 'argmax'):
         return 64
+    if op == 'ctor_add':
+        return g['mb']
     if op == 'dot' and ops[0][:2] == (1, 1) and ops[1][:2] != (1, 1):
         return ops[1][3]          # scalar . Matrix: the Matrix operand
     return ops[0][3]
@@ -376,6 +389,14 @@ def mb1_dot(case, mb1):
 
 
 # ----------------------------------------------------------------------------- build with the real class
+def call_form(l, form):
+    """the same argument in the call forms the API accepts: list, tuple, or a bare int for one element"""
+    if form == 'int' or form == 'scalar':
+        assert len(l) == 1
+        return l[0]
+    return tuple(l) if form == 'tuple' else list(l)
+
+
 def build(case, mats, scalar_wire):
     op, g = case['op'], case['args']
     a = mats[0]
@@ -437,11 +458,15 @@ def build(case, mats, scalar_wire):
     if op == 'getitem':
         return a[g['key']]
     if op == 'setitem':
-        a[g['key']] = scalar_wire if g['scalar'] else mats[1]
+        a[g['key']] = (g['lit'] if 'lit' in g else scalar_wire) if g['scalar'] else mats[1]
         return a
     if op == 'put':
-        a.put(g['ind'] if not g.get('ind_int') else g['ind'][0], mats[1] if g['vmat'] else g['v'], mode=g['mode'])
+        a.put(call_form(g['ind'], g.get('indform', 'int' if g.get('ind_int') else 'list')),
+              mats[1] if g['vmat'] else call_form(g['v'], g.get('vform', 'list')), mode=g['mode'])
         return a
+    if op == 'ctor_add':
+        made = M.Matrix(g['r'], g['c'], g['b'], value=g['vals'], max_bits=g['mb'])
+        return made + a
     if op == 'reshape':
         form = g['form']
         if form == 'one':
@@ -499,6 +524,9 @@ def coq_term(case, A, S):
         return some('(m%s %s %s)' % (op, a, A[1]))
     if op == 'multiply':
         return some('(mmul %s %s)' % (a, A[1]))
+    if op == 'ctor_add':
+        vals = g['vals'] if g['vals'] is not None else [[0] * g['c'] for _ in range(g['r'])]
+        return some('(madd (mx_list %d %d [%s]) %s)' % (g['b'], g['mb'], '; '.join(zl(row) for row in vals), a))
     if op in ('iadd', 'isub', 'imul', 'imatmul'):
         return some('(m%s %s %s)' % (op, a, A[1]))
     if op == 'scal':
@@ -517,7 +545,7 @@ def coq_term(case, A, S):
         if op == 'getitem':
             return opt('(mgetitem %s %s %s)' % (a, key_coq(kr), key_coq(kc)))
         if g['scalar']:
-            return opt('(msetitem_s %s %s %s %s)' % (a, key_coq(kr), key_coq(kc), S))
+            return opt('(msetitem_s %s %s %s %s)' % (a, key_coq(kr), key_coq(kc), ('%d' % g['lit']) if 'lit' in g else S))
         return opt('(msetitem_m %s %s %s %s)' % (a, key_coq(kr), key_coq(kc), A[1]))
     if op == 'put':
         if g['vmat']:
@@ -634,6 +662,13 @@ def gen_cases(ctx, tier):
                 vmax = (1 << capb(A[2], A[3])) - 1
                 add('put', [A], 'sweep', ind=ind, v=[rng.randint(0, vmax) for _ in range(rng.randint(1, 3))],
                     mode=mode, vmat=False, ind_int=(len(ind) == 1 and rng.random() < 0.5))
+            # every call form of the index and value arguments, falsy-but-meaningful values included
+            for v in ([0], [vmax], [0, vmax], [vmax, 0], [0, 0], []):
+                for vform in (['scalar', 'list', 'tuple'] if len(v) == 1 else ['list', 'tuple']):
+                    for ind, indform in (([count - 1], 'int'), ([0], 'int'), ([0, count - 1], 'list'),
+                                         ([-1, 0, 1 % count], 'tuple')):
+                        if rng.random() < (0.6 if tier == 'quick' else 1.0) or (vform == 'scalar' and mode == 'raise'):
+                            add('put', [A], 'sweep', ind=ind, v=v, mode=mode, vmat=False, vform=vform, indform=indform)
             for vc in (1, 2, count, count + 2):
                 V = operand(rng, 1, vc, mb=64)
                 for ind in ([0], list(range(min(count, vc))), [0, -1, 1 % count], list(range(count)) + [0, 0]):
@@ -645,6 +680,12 @@ def gen_cases(ctx, tier):
                 if abs(kr) <= 2 or abs(kc) <= 1:
                     add('getitem', [A], 'sweep', key=(kr, kc))
                     add('setitem', [A], 'sweep', key=(kr, kc), scalar=True, ws=A[2] + 1)
+        for lit in (0, 1, (1 << capb(A[2], A[3])) - 1):
+            for key in ((0, 0), (-1, -1), (r - 1, 0)):
+                add('setitem', [A], 'sweep', key=key, scalar=True, lit=lit)
+        for vals in (None, [[0] * c for _ in range(r)], [[(i * c + j) % 2 * ((1 << min(A[2], 4)) - 1) for j in range(c)]
+                                                       for i in range(r)]):
+            add('ctor_add', [A], 'sweep', r=r, c=c, b=min(A[2], 4), mb=rng.choice([64, 5]), vals=vals)
         for s0 in [None] + list(range(-r, r + 1)):
             for s1 in [None] + list(range(-r, r + 1)):
                 if rng.random() < 0.5:
@@ -804,8 +845,11 @@ def gen_cases(ctx, tier):
             ind = [rng.randint(-count - 2, count + 1) for _ in range(rng.randint(1, 5))]
             mode = rng.choice(['raise', 'wrap', 'clip'])
             if rng.random() < 0.5:
-                add('put', [A], ind=ind, v=[rng.randint(0, (1 << capb(A[2], A[3])) - 1) for _ in range(rng.randint(0, 4))],
-                    mode=mode, vmat=False)
+                top_ = (1 << capb(A[2], A[3])) - 1
+                v = [rng.choice([0, 0, top_, rng.randint(0, top_)]) for _ in range(rng.randint(0, 4))]
+                add('put', [A], ind=ind, v=v, mode=mode, vmat=False,
+                    vform=rng.choice(['scalar', 'list', 'tuple']) if len(v) == 1 else rng.choice(['list', 'tuple']),
+                    indform=rng.choice(['int', 'list', 'tuple']) if len(ind) == 1 else rng.choice(['list', 'tuple']))
             else:
                 add('put', [A, operand(rng, 1, rng.randint(1, 6))], ind=ind, v=None, mode=mode, vmat=True)
         else:
@@ -823,7 +867,7 @@ def in_bits(case):
 
 
 def scalar_width(case):
-    if case['op'] == 'scal' or (case['op'] == 'setitem' and case['args'].get('scalar')):
+    if case['op'] == 'scal' or (case['op'] == 'setitem' and case['args'].get('scalar') and 'lit' not in case['args']):
         return case['args']['ws']
     return 0
 
@@ -1360,7 +1404,7 @@ def seq_exec(real, st, M_):
     elif op == 'setitem_m':
         a[g['key']] = real[st['j']]
     elif op == 'put':
-        a.put(g['ind'], g['v'], mode=g['mode'])
+        a.put(call_form(g['ind'], g.get('indform', 'list')), call_form(g['v'], g.get('vform', 'list')), mode=g['mode'])
     elif op == 'setbits':
         a.bits = g['b']
     else:
@@ -1478,7 +1522,7 @@ def gen_sequence(ctx, n, tier):
             st['args'] = {'axis': rng.choice([0, 1]), 'bits': rng.choice([None, None, rng.randint(1, 8)])}
         elif kind == 'setitem_s':
             st['args'] = {'key': (rng.randint(-a['r'], a['r'] - 1), rng.randint(-a['c'], a['c'] - 1))}
-            st['x'] = rng.randint(0, (1 << min(a['b'], 16)) - 1)
+            st['x'] = rng.choice([0, (1 << min(a['b'], 16)) - 1, rng.randint(0, (1 << min(a['b'], 16)) - 1)])
         elif kind == 'setitem_m':
             cands = [k for k in ids if pool[k]['c'] == a['c'] and pool[k]['r'] <= a['r']]
             if not cands:
@@ -1489,9 +1533,13 @@ def gen_sequence(ctx, n, tier):
             st['args'] = {'key': (slice(start, start + rr), slice(None))}
         elif kind == 'put':
             count = a['r'] * a['c']
+            top_ = (1 << min(a['b'], 16)) - 1
             st['args'] = {'ind': [rng.randint(-count, count + 1) for _ in range(rng.randint(1, 3))],
-                          'v': [rng.randint(0, (1 << min(a['b'], 16)) - 1) for _ in range(rng.randint(1, 3))],
+                          'v': [rng.choice([0, top_, rng.randint(0, top_)]) for _ in range(rng.randint(1, 3))],
                           'mode': rng.choice(['wrap', 'clip'])}
+            g_ = st['args']
+            g_['vform'] = rng.choice(['scalar', 'list', 'tuple']) if len(g_['v']) == 1 else rng.choice(['list', 'tuple'])
+            g_['indform'] = rng.choice(['int', 'list', 'tuple']) if len(g_['ind']) == 1 else rng.choice(['list', 'tuple'])
         elif kind == 'setbits':
             lo, hi = 1, min(a['mb'], 12)
             st['args'] = {'b': rng.randint(lo, hi)}
